@@ -366,6 +366,9 @@ def build_value(world, dom, name):
         building = getattr(dom, 'building', False)
         obj = SObj(cls, {'cycles': dom.cycles, 'cell_map': HM.SCellMap(mutable=building), 'dep_graph': HM.SGraph(),
                          'log': HM.Dummy(), 'evaluate': Builtin('evaluate', HM.heap_evaluate)})
+        if getattr(dom, 'evaluating', None) is not None:
+            obj.fields['cell_map'] = HM.SCellMap(classes=True)
+            obj.fields['eval'] = Builtin('eval', HM.make_heap_eval(list(dom.evaluating)))
         if building:
             HM.declare_heap_set('graph_todos')
             obj.fields['graph_todos'] = HM.SNodeSet('graph_todos')
